@@ -41,7 +41,7 @@ def strategy(tier):
         st.sampled_from([["value"], ["error"], ["call"], ["is_computed"]]),
         st.tuples(st.just("set_value"), st.integers(0, 3)).map(list),
         st.tuples(st.just("set_error"), st.integers(0, 3)).map(list),
-        st.tuples(st.just("subscribe"), st.sampled_from([False, True, "oneshot", "oneshot"])).map(list),
+        st.tuples(st.just("subscribe"), st.sampled_from([False, True, "oneshot", "oneshot", "nested", "nested"])).map(list),
     )
     return st.fixed_dictionaries({"kind": st.sampled_from(KINDS), "ops": st.lists(op, min_size=1, max_size=30 if tier == "quick" else 60)})
 
@@ -254,7 +254,15 @@ def check(case, ctx):
 
                 def cb(fut, idx=idx, raising=raising):
                     cb_log.append([idx, fut.is_computed(), fut._value, fut._error])
-                    if raising == "oneshot":
+                    if raising == "nested":
+                        # a subscriber that completes other futures while it is being notified
+                        from asynq import ConstFuture as _CF, Future as _F
+                        _CF(1)
+                        g = _F(lambda: 2)
+                        g.on_computed.subscribe(lambda _g: None)
+                        g.on_computed.subscribe(lambda _g: None)
+                        g.value()
+                    elif raising == "oneshot":
                         # a one-shot subscriber removes itself while being notified
                         fut.on_computed.unsubscribe(cb_of[idx])
                         gone.add(idx)
@@ -308,6 +316,7 @@ def check(case, ctx):
     ctx.label("ops-after-completion", M["after"] > 0)
     ctx.label("reset_unsafe", any(o[0] == "reset_unsafe" for o in case["ops"]))
     ctx.label("raising-subscriber", any(o[0] == "subscribe" and o[1] is True for o in case["ops"]))
+    ctx.label("subscriber-completing-other-futures", any(o[0] == "subscribe" and o[1] == "nested" for o in case["ops"]))
     ctx.label("one-shot-subscriber", any(o[0] == "subscribe" and o[1] == "oneshot" for o in case["ops"]))
     ctx.nontrivial(case, M["completions"] >= 1 and M["after"] >= 1 and M["subs"] >= 1)
     return viol
